@@ -258,6 +258,8 @@ class Interp:
         ty = o.get('ty', '')
         if 'variant' in o:
             return ('enum', self._variant_index(ty, o['variant']), ())
+        if 'hex' in o:
+            return ('bytes', o['hex'])
         if 'f' in o:
             v = float(o['f'])
             if v != v:
@@ -267,6 +269,8 @@ class Interp:
             v = int(o['bits'])
             if ty == 'bool':
                 return bool(v)
+            if ty == 'char':
+                return chr(v)
             size = o.get('size', 8)
             if ty.startswith('i') and v >= 1 << (8 * size - 1):
                 v -= 1 << (8 * size)
@@ -365,6 +369,8 @@ class Interp:
                 return self.get_path(st['#cells'][r[1]], r[2], st)
         if isinstance(r, Sym):
             return Sym(('deref', r.tag))
+        if isinstance(r, str):
+            return r
         raise Unsupported('deref of %r' % (r,))
 
     def read_place(self, st, p):
@@ -426,6 +432,8 @@ class Interp:
                 return (r[0], r[1], tuple(r[2]) + rest)
             if isinstance(r, Sym):
                 return Sym(('ref', r.tag, tuple(e.get('name', e['k']) for e in rest)))
+            if (isinstance(r, str) or (isinstance(r, tuple) and r and r[0] == 'bytes')) and not rest:
+                return r                  # a &str / &[u8] constant is modelled by the text itself
             raise Unsupported('reborrow of %r' % (r,))
         if any(e['k'] == 'deref' for e in proj):
             return ('refval', self.read_place(st, p), ())
@@ -1038,6 +1046,20 @@ def h_call_closure(I, st, a, t, b):
     fv = _deref_arg(I, st, f)
     while isinstance(fv, tuple) and fv and fv[0] in ('ref', 'refval', 'mref'):
         fv = I.deref(fv, st)
+    if isinstance(fv, Sym) and isinstance(fv.tag, tuple) and fv.tag[0] == 'fn':
+        # a function item called through Fn::call (`show(item)` with show = deg): the handler of that function, or its body
+        path = fv.tag[1]
+        h = I.handlers.get(cname(path)) or I.handlers.get(path) or BUILTINS.get(cname(path))
+        if h is not None:
+            return h(I, st, list(a[1]), t, b)
+        if path in I.prog.bodies:
+            sub = Interp(I.prog, I.handlers, I.fuel, I.max_paths)
+            sub.steps = I.steps
+            sub.depth = I.depth + 1
+            outs = sub.run(path, list(a[1]))
+            I.steps = sub.steps
+            return outs[0].ret if len(outs) == 1 else Fork([o.ret for o in outs])
+        raise Unsupported('call of function item %s' % path)
     if not (isinstance(fv, dict) and '#closure' in fv):
         raise Unsupported('call of non-closure %r' % (fv,))
     args = [('refval', fv, ())] + list(a[1])
@@ -1281,6 +1303,61 @@ def h_range_inclusive(I, st, a, t, b):
     raise Undecided('inclusive range with symbolic bounds')
 
 
+ORD_LESS, ORD_EQUAL, ORD_GREATER = ('enum', 255, ()), ('enum', 0, ()), ('enum', 1, ())       # discriminants of std::cmp::Ordering (-1 as u8, 0, 1)
+
+
+def h_partial_cmp(I, st, a, t, b):
+    x, y = _deref_arg(I, st, a[0]), _deref_arg(I, st, a[1])
+    while isinstance(x, tuple) and x and x[0] in ('ref', 'refval', 'mref'):
+        x = I.deref(x, st)
+    while isinstance(y, tuple) and y and y[0] in ('ref', 'refval', 'mref'):
+        y = I.deref(y, st)
+    if isinstance(x, int) and isinstance(y, int):
+        return SOME(ORD_LESS if x < y else ORD_GREATER if x > y else ORD_EQUAL)
+    if not (isinstance(x, Iv) and isinstance(y, Iv)):
+        raise Unsupported('partial_cmp of %r, %r' % (x, y))
+    outs = []
+    if x.lo < y.hi:
+        outs.append(SOME(ORD_LESS))
+    if x.hi > y.lo:
+        outs.append(SOME(ORD_GREATER))
+    if x.lo <= y.hi and y.lo <= x.hi:
+        outs.append(SOME(ORD_EQUAL))
+    if x.nan or y.nan:
+        outs.append(NONE)
+    if x.is_point() and y.is_point() and not (x.nan or y.nan):
+        outs = [SOME(ORD_LESS if x.lo < y.lo else ORD_GREATER if x.lo > y.lo else ORD_EQUAL)]
+    return outs[0] if len(outs) == 1 else Fork(outs)
+
+
+def h_iter_mut(I, st, a, t, b):
+    """slice::iter_mut / Vec::iter_mut: one reference per element, written through (`for x in v.iter_mut() { *x = .. }`)"""
+    r = a[0]
+    if not (isinstance(r, tuple) and r and r[0] in ('ref', 'mref')):
+        raise Unsupported('iter_mut on %r' % (r,))
+    tgt = I.deref(r, st)
+    if not isinstance(tgt, (tuple, list)):
+        raise Unsupported('iter_mut over %r' % (tgt,))
+    return {'#iter': 'seq', 'items': tuple((r[0], r[1], tuple(r[2]) + ({'k': 'cindex', 'off': i},)) for i in range(len(tgt))), 'pos': 0}
+
+
+def h_index_range(I, st, a, t, b):
+    """v[..n] / v[a..b] / v[a..] on a sequence of known length"""
+    seq = _deref_arg(I, st, a[0])
+    while isinstance(seq, tuple) and seq and seq[0] in ('ref', 'refval', 'mref'):
+        seq = I.deref(seq, st)
+    r = a[1]
+    if isinstance(seq, (tuple, list)) and not (seq and seq[0] in ('enum',)) and isinstance(r, dict) and '#adt' in r:
+        kind = r['#adt'].split('::')[-1]
+        lo = r.get('start', 0) if kind in ('Range', 'RangeFrom') else 0
+        hi = r.get('end', len(seq)) if kind in ('Range', 'RangeTo') else len(seq)
+        if kind == 'RangeToInclusive':
+            hi = r['end'] + 1
+        if isinstance(lo, int) and isinstance(hi, int) and 0 <= lo <= hi <= len(seq):
+            return ('refval', tuple(seq[lo:hi]), ())
+    raise Unsupported('index %r by %r' % (type(seq).__name__, r))
+
+
 def h_iter_all(I, st, a, t, b):
     for x in _items_of(I, st, a[0]):
         if not _truth(_call_f(I, st, a[1], [x])):
@@ -1338,6 +1415,6 @@ BUILTINS.update({
     'Option::is_none': h_opt_is_none, 'Option::copied': h_opt_copied, 'Option::cloned': h_opt_copied,
     'Iterator::zip': h_zip, 'Iterator::map': h_iter_map, 'Iterator::all': h_iter_all, 'Iterator::any': h_iter_any,
     'Iterator::find': h_iter_find, 'Iterator::collect': h_iter_collect, 'Iterator::copied': h_iter_copied, 'Iterator::cloned': h_iter_copied,
-    'array::map': h_array_map, 'array::from_fn': h_array_from_fn, 'RangeInclusive::new': h_range_inclusive,
-    'Iterator::filter': h_iter_filter, 'Iterator::filter_map': h_iter_filter_map, 'Extend::extend': h_extend, 'Vec::extend': h_extend,
+    'array::map': h_array_map, 'array::from_fn': h_array_from_fn, 'RangeInclusive::new': h_range_inclusive, 'PartialOrd::partial_cmp': h_partial_cmp,
+    'Index::index': h_index_range, 'slice::iter_mut': h_iter_mut, 'Vec::iter_mut': h_iter_mut, 'Iterator::filter': h_iter_filter, 'Iterator::filter_map': h_iter_filter_map, 'Extend::extend': h_extend, 'Vec::extend': h_extend,
 })
